@@ -60,7 +60,9 @@ func (f *File) IsDir() bool {
 func (f *File) getData() []byte {
 	f.dataMU.RLock()
 	defer f.dataMU.RUnlock()
-	return f.data
+	data := make([]byte, len(f.data))
+	copy(data, f.data)
+	return data
 }
 
 // setData set new file data bytes
@@ -68,5 +70,6 @@ func (f *File) setData(data []byte) {
 	f.dataMU.Lock()
 	defer f.dataMU.Unlock()
 	f.time = time.Now()
-	f.data = data
+	f.data = make([]byte, len(data))
+	copy(f.data, data)
 }
